@@ -27,6 +27,7 @@ RULE = (
     ' Round 6: templates of SMSimfile/SMChart subclasses; defaults padded with FF, VT, NBSP, U+3000, U+2028.'
     ' Round 7: template with FREEZES/ANIMATIONS only, refused values with braces.'
     ' Round 8: template chart equal to a converted source chart.'
+    ' Round 9: round-trip sources with FREEZES only; chart template with extra components.'
 )
 EXHAUSTIVE_PART = "thorough: all 4^5 behaviour mappings on each of a set of small simfiles"
 ASSUMPTIONS = ["the behaviour/default tables re-stated here are the documented ones"]
